@@ -32,8 +32,8 @@ static ssize_t _fast_append(MPT_STRUCT(slice) *sl, size_t nblk, const void *from
 	sl->_len += take;
 	pos += take;
 	used = buf->_used;
-	if (used > pos) {
-		buf->_used = used;
+	if (pos > used) {
+		buf->_used = pos;
 	}
 	return take;
 }
